@@ -115,6 +115,15 @@ def check_invariants(path, model_rids, src, ctx, res, counters, aud_events=None)
         if part._schema != pf._schema and [s.name for s in part._schema] != [s.name for s in pf._schema]:
             res["failures"].append({"kind": "I3_part_schema_differs", "file": fp, **ctx})
     counters["I1_files_checked"] = counters.get("I1_files_checked", 0) + len(refs)
+    # I1 for every column chunk, not only the first of its row group: any file a chunk names is a referenced file
+    def _dec(x):
+        return x.decode() if isinstance(x, bytes) else x
+    for j, rg in enumerate(rgs):
+        names = sorted({str(_dec(c.file_path)) for c in rg.columns})
+        counters["I1_chunk_paths_checked"] = counters.get("I1_chunk_paths_checked", 0) + len(rg.columns)
+        if len(names) > 1:
+            res["failures"].append({"kind": "I1_chunks_of_one_row_group_name_different_files", "row_group": j, "files": names[:4],
+                                    "missing": [n for n in names if not os.path.exists(os.path.join(path, n))][:4], **ctx})
     # I2
     on_disk = set()
     for d, dirs, files in os.walk(path):
